@@ -78,6 +78,24 @@ def atomicity(rel, fn, sol, r):
         if err and not full:
             r.fail(f'O1/{fn}/savepoint-left-open', f'{fn}: the error path rewinds savepoint {name} but never releases it: the implicit transaction stays open and every later write on the '
                    'connection is lost when the database is closed')
+    # control flow between the statement that opens the bracket and the guarded block whose result decides COMMIT / ROLLBACK:
+    # an early exit (`?`, `return`) there leaves the transaction open (and its file lock held); every later write of the connection is
+    # then uncommitted and vanishes with the process
+    body = S.fn_body(S.source(rel), fn)
+    flat = re.sub(r'//[^\n]*', '', body)
+    mo = re.search(r'"\s*(BEGIN[^"]*|SAVEPOINT[^"]*)"', flat)
+    if mo:
+        rest = flat[mo.end():]
+        stmt_end = rest.find(';')                      # end of the statement that executes BEGIN (its own `?` happens before the transaction exists)
+        mg = re.search(r'=\s*\(\s*\|\|', rest)                # `let result = (|| ... { ... })();`
+        if mg and stmt_end >= 0 and mg.start() > stmt_end:
+            between = rest[stmt_end + 1: mg.start()]
+            exits = re.findall(r'\?\s*[;,)\n]|\breturn\b', between)
+            if exits:
+                r.fail(f'O1/{fn}/early-exit-in-open-transaction', f'{fn}: between the statement that opens the transaction and the block guarded by COMMIT/ROLLBACK there are {len(exits)} early exit(s) '
+                       '(`?` / `return`): an error there returns with the transaction still open, so later writes on the connection are never committed')
+        elif not mg:
+            r.notes.append(f'{fn}: no guarded closure after the opening statement (error path checked at statement level only)')
     if not any(s.kind == 'ROLLBACK' for s in stmts):
         r.fail(f'O1/{fn}/no-rollback-on-error', f'{fn}: no ROLLBACK on the error path (a failed statement would leave the transaction open)')
     r.samples.append({'function': fn, 'statements': [f'{i}: {s.kind} {s.table or ""}' for i, s in enumerate(stmts)], 'brackets': brackets,
@@ -113,10 +131,45 @@ def o1(tier):
     return r
 
 
+def o2(tier):
+    """retrying the interrupted operation converges: MDK::merge_pending_commit re-synchronises the stored record on EVERY successful return,
+    also when the OpenMLS merge had already been persisted by the interrupted run (no commit pending any more)"""
+    from mirsym.api import Ob, Opaque, ev_is, vname
+    from mirsym import contracts as C
+    from props.C05 import res_ok
+    ob = Ob('O2', 'MDK::merge_pending_commit (the retry after a crash between the OpenMLS merge and the record update): every successful return has re-synchronised the stored group record '
+                  'with the MLS state, whether or not a commit was still pending', pure=C.PURE_MLS, models=C.staged_commit_models(1), loop_bound=5)
+    f = ob.fn('mdk-core', 'groups::merge_pending_commit')
+    paths = ob.explore(f, [Opaque('self', '&MDK<Storage>'), Opaque('group_id', '&mdk_storage_traits::GroupId')])
+    n_ok = n_nopending = 0
+    for p in paths:
+        if p.kind != 'return' or vname(p.ret) != 'Ok':
+            continue
+        n_ok += 1
+        sy = [e for e in p.trace if ev_is(e, 'sync_group_metadata_from_mls')]
+        pc_ = [e for e in p.trace if ev_is(e, 'pending_commit')]
+        nopend = bool(pc_) and ob.eng.prove(p, pc_[0].ret.discriminant() == 0)[0]
+        n_nopending += nopend
+        ob.require(bool(sy) and res_ok(ob, p, sy[-1]), 'O2/merge_pending_commit/ok-without-resync' + ('-when-nothing-pending' if nopend else ''),
+                   'merge_pending_commit returns Ok without re-synchronising the stored record' + (' when no commit is pending: a retry after a crash that hit between the OpenMLS merge and the '
+                   'record update leaves the stored epoch / group data behind the MLS state for good' if nopend else ''), p)
+    ob.require(n_ok >= 1, 'O2/vacuity', 'no successful path')
+    ob.r.bounds = {'paths': 'all', 'pending-commit proposal list': '0..1'}
+    ob.r.assumptions.append('OpenMLS: MlsGroup::merge_pending_commit is a no-op returning Ok when no commit is pending; the merge is persisted by OpenMLS before it returns')
+    ob.r.vacuity.append(f'{len(paths)} paths, {n_ok} successful, {n_nopending} of them with provably no pending commit')
+    return ob.done(cases=len(paths))
+
+
 def run(tier, seed, only=None):
-    try:
-        return [o1(tier)]
-    except S.SqlError as e:
-        r = Result('O1', 'sqlsym', 'atomicity')
-        r.broken(f'SQL engine: {e}')
-        return [r]
+    out = []
+    if not only or 'O1' in only:
+        try:
+            out.append(o1(tier))
+        except S.SqlError as e:
+            r = Result('O1', 'sqlsym', 'atomicity')
+            r.broken(f'SQL engine: {e}')
+            out.append(r)
+    if not only or 'O2' in only:
+        from mirsym.api import guard
+        out.append(guard(o2)(tier))
+    return out
